@@ -414,7 +414,13 @@ impl<'s, M: Matcher, S: Sink> Core<'s, M, S> {
             match self.matcher.find_candidate_line(&buf[pos..]) {
                 Err(err) => return Err(S::Error::error_message(err)),
                 Ok(None) => return Ok(None),
-                Ok(Some(LineMatchKind::Confirmed(i))) => {
+                // With CRLF, the regex can report an empty match between the
+                // `\r` and the `\n` of a terminator, which isn't part of any
+                // line's content. So such a match needs to be checked against
+                // the line itself, like a candidate.
+                Ok(Some(LineMatchKind::Confirmed(i)))
+                    if !self.config.line_term.is_crlf() =>
+                {
                     let line = lines::locate(
                         buf,
                         self.config.line_term.as_byte(),
@@ -428,12 +434,18 @@ impl<'s, M: Matcher, S: Sink> Core<'s, M, S> {
                     }
                     return Ok(Some(line));
                 }
-                Ok(Some(LineMatchKind::Candidate(i))) => {
+                Ok(Some(LineMatchKind::Confirmed(i)))
+                | Ok(Some(LineMatchKind::Candidate(i))) => {
                     let line = lines::locate(
                         buf,
                         self.config.line_term.as_byte(),
                         Range::zero(i).offset(pos),
                     );
+                    // As above, there is no line beyond the end of the buffer.
+                    if line.start() == buf.len() {
+                        pos = buf.len();
+                        continue;
+                    }
                     // We need to strip the line terminator here to match the
                     // semantics of line-by-line searching. Namely, regexes
                     // like `(?m)^$` can match at the final position beyond a
